@@ -698,13 +698,13 @@ fn run(ctx: &Ctx) {
     let plans = [
         GenPlan {
             gen: "full-nobig",
-            cases: ctx.tier.pick(20_000, 400_000),
+            cases: ctx.tier.pick(80_000, 800_000),
             min_len: 0,
             max_len: ctx.tier.pick(1500, 3000),
         },
         GenPlan {
             gen: "builder",
-            cases: ctx.tier.pick(15_000, 300_000),
+            cases: ctx.tier.pick(60_000, 600_000),
             min_len: 0,
             max_len: 600,
         },
